@@ -71,10 +71,16 @@ def _path_template(path, class_name, problems):
 	argument = function.args.args[1].arg
 	result = {'curve': curve}
 	returns = [node for node in ast.walk(function) if isinstance(node, ast.Return)]
+	# plain local bindings `name = <expression>` are read through (so naming the coin type first changes nothing)
+	local_bindings = {
+		node.targets[0].id: node.value for node in ast.walk(function)
+		if isinstance(node, ast.Assign) and 1 == len(node.targets) and isinstance(node.targets[0], ast.Name)}
 	try:
 		if 1 != len(returns) or not isinstance(returns[0].value, ast.List):
 			raise ValueError('bip32_path does not return one list literal')
-		elements = returns[0].value.elts
+		elements = [
+			local_bindings[element.id] if isinstance(element, ast.Name) and element.id in local_bindings else element
+			for element in returns[0].value.elts]
 		if 5 != len(elements):
 			raise ValueError(f'bip32_path returns {len(elements)} elements')
 		result['purpose'] = pyconst.const_eval(elements[0])
@@ -121,8 +127,6 @@ def _derive_one_constants(path, problems):
 		if ['write_int', 'write_bytes', 'write_int'] != [call.func.attr for call in writes]:
 			raise ValueError('writes are not write_int, write_bytes, write_int')
 		result['prefix'] = [pyconst.const_eval(writes[0].args[0]), pyconst.const_eval(writes[0].args[1])]
-		if 'self.private_key.bytes' != ast.unparse(writes[1].args[0]):
-			raise ValueError('second write is not the private key bytes')
 		index = writes[2].args[0]
 		if not isinstance(index, ast.BinOp) or not isinstance(index.op, ast.BitOr):
 			raise ValueError('index is not <flag> | identifier')
@@ -133,9 +137,6 @@ def _derive_one_constants(path, problems):
 			raise ValueError('index is not <flag> | identifier')
 		result['flag'] = flags[0]
 		result['width'] = pyconst.const_eval(writes[2].args[1])
-		returns = [node for node in ast.walk(function) if isinstance(node, ast.Return)]
-		if 1 != len(returns) or 'Bip32Node(self.chain_code, hmac_data_writer.buffer)' != ast.unparse(returns[0].value):
-			raise ValueError('child is not Bip32Node(self.chain_code, <writer>.buffer)')
 	except (ValueError, IndexError) as ex:
 		problems.append(f'translator: Bip32Node.derive_one has an unexpected shape: {ex}')
 	return result
@@ -559,17 +560,17 @@ def generate(ctx, vectors):
 	vector_seeds = [entry['seed'] for entries in vectors.values() for entry in entries]
 
 	# every length 0..12 is hit at least once per run, then random lengths
-	derive_count = ctx.scale(150, 4000)
+	derive_count = ctx.scale(400, 4000)
 	for number in range(derive_count):
 		length = number if number <= 12 else rng.choice([0, 1, 2, 3, 4, 5, 5, 6, 8, 12])
 		path = [boundary_index(rng) for _ in range(length)]
 		cases.append({'op': 'derive', 'curve': gen_curve(rng), 'seed': gen_seed(rng, vector_seeds).hex().upper(), 'path': path})
-	for _ in range(ctx.scale(60, 1500)):
+	for _ in range(ctx.scale(150, 1500)):
 		length = rng.choice([1, 1, 2, 3, 5, 8, 12])
 		path = [boundary_index(rng) for _ in range(length)]
 		path[rng.randrange(length)] = bad_index(rng)
 		cases.append({'op': 'derive', 'curve': gen_curve(rng), 'seed': gen_seed(rng, vector_seeds).hex().upper(), 'path': path})
-	for _ in range(ctx.scale(40, 1000)):
+	for _ in range(ctx.scale(100, 1000)):
 		length = rng.choice([0, 1, 2, 5, 12])
 		chain = rng.bytes_(rng.choice([0, 1, 31, 32, 32, 32, 33, 64, 128, 129, 200]))
 		cases.append({
@@ -578,11 +579,11 @@ def generate(ctx, vectors):
 
 	# mnemonics: vector ones (with expected seeds), then opaque strings
 	mnemonic_entries = [entry for tag in ('symbol', 'nem') for entry in vectors[tag] if 'mnemonic' in entry]
-	for entry in (mnemonic_entries if ctx.thorough else rng.sample(mnemonic_entries, min(8, len(mnemonic_entries)))):
+	for entry in (mnemonic_entries if ctx.thorough else rng.sample(mnemonic_entries, min(16, len(mnemonic_entries)))):
 		for curve in ('ed25519', 'ed25519-keccak'):
 			cases.append({
 				'op': 'mnemonic', 'curve': curve, 'mnemonic': entry['mnemonic'], 'passphrase': entry['passphrase'], 'expected_seed': entry['seed']})
-	for _ in range(ctx.scale(24, 400)):
+	for _ in range(ctx.scale(60, 400)):
 		ascii_only = rng.random() < 0.7
 		cases.append({
 			'op': 'mnemonic', 'curve': gen_curve(rng), 'mnemonic': gen_text(rng, ascii_only),
@@ -598,14 +599,14 @@ def generate(ctx, vectors):
 
 	# key pairs on random node keys
 	for facade_name in ('symbol', 'nem'):
-		for _ in range(ctx.scale(30, 600)):
+		for _ in range(ctx.scale(80, 600)):
 			key = rng.choice([rng.bytes_(32), rng.bytes_(32), bytes(32), bytes([0xFF] * 32), bytes(range(32)), bytes([1] + [0] * 31)])
 			cases.append({'op': 'keypair', 'facade': facade_name, 'key': key.hex().upper(), 'raw': rng.random() < 0.25})
 
 	# vector accounts: root public key (KeyPair(root.private_key), no facade) and every child account (through the facade)
 	for facade_name in ('symbol', 'nem'):
 		entries = vectors[facade_name]
-		chosen = entries if ctx.thorough else rng.sample(entries, min(12, len(entries)))
+		chosen = entries if ctx.thorough else rng.sample(entries, min(30, len(entries)))
 		for entry in chosen:
 			cases.append({
 				'op': 'account', 'facade': facade_name, 'seed': entry['seed'], 'path': [], 'raw': True, 'expected_public': entry['rootPublicKey']})
@@ -613,7 +614,7 @@ def generate(ctx, vectors):
 				cases.append({
 					'op': 'account', 'facade': facade_name, 'seed': entry['seed'], 'path': child['path'], 'raw': False,
 					'expected_public': child['publicKey']})
-		for _ in range(ctx.scale(20, 400)):
+		for _ in range(ctx.scale(50, 400)):
 			network_name = rng.choice(['mainnet', 'testnet'])
 			account = rng.choice([0, 1, 2, (1 << 31) - 1, rng.randrange(1 << 31)])
 			coin = COIN_TYPES[facade_name] if 'mainnet' == network_name else 1
@@ -622,7 +623,7 @@ def generate(ctx, vectors):
 				'raw': False})
 
 	# BufferWriter
-	for _ in range(ctx.scale(60, 2000)):
+	for _ in range(ctx.scale(200, 2000)):
 		count = rng.choice([0, 1, 1, 2, 4, 4, 8, 16])
 		pick = rng.random()
 		if pick < 0.6:
